@@ -214,7 +214,8 @@ impl<T> Sel for Receiver<T> {
 }
 
 pub struct Select<'a> {
-    rs: Vec<&'a dyn Sel>,
+    rs: Vec<Option<&'a dyn Sel>>,
+    biased: bool,
 }
 impl<'a> Default for Select<'a> {
     fn default() -> Self {
@@ -223,12 +224,21 @@ impl<'a> Default for Select<'a> {
 }
 impl<'a> Select<'a> {
     pub fn new() -> Self {
-        Select { rs: vec![] }
+        Select { rs: vec![], biased: false }
+    }
+    /// Like crossbeam's `new_biased`: among several ready operations the one registered first is reported.
+    pub fn new_biased() -> Self {
+        Select { rs: vec![], biased: true }
     }
     pub fn recv<T>(&mut self, r: &'a Receiver<T>) -> usize {
         let _rt = crate::RtGuard::new();
-        self.rs.push(r);
+        self.rs.push(Some(r));
         self.rs.len() - 1
+    }
+    /// Removes a previously registered operation (its index is never reported again).
+    pub fn remove(&mut self, index: usize) {
+        assert!(self.rs.get(index).map(|r| r.is_some()).unwrap_or(false), "index out of bounds; {index} is not a registered operation");
+        self.rs[index] = None;
     }
     /// Blocks until one of the registered operations is ready (non-empty or disconnected) and
     /// returns its index; if several are ready, one of them is chosen by the scheduler stream.
@@ -241,20 +251,24 @@ impl<'a> Select<'a> {
                 Mode::Ending => return 0,
                 Mode::Sim(mut c) => {
                     let ready: Vec<usize> = (0..self.rs.len())
-                        .filter(|&i| {
-                            let (ne, dc) = self.rs[i].state();
-                            ne || dc
+                        .filter(|&i| match self.rs[i] {
+                            Some(r) => {
+                                let (ne, dc) = r.state();
+                                ne || dc
+                            }
+                            None => false,
                         })
                         .collect();
                     if !ready.is_empty() {
-                        let k = if ready.len() > 1 { c.decide(ready.len()) } else { 0 };
+                        let k = if ready.len() > 1 && !self.biased { c.decide(ready.len()) } else { 0 };
                         if ready.len() > 1 {
                             c.count("reach.select_several_ready");
                         }
                         c.log(0x61, ready[k] as u64, ready.len() as u64);
                         return ready[k];
                     }
-                    let ids = self.rs.iter().map(|r| r.id()).collect();
+                    let ids: Vec<u64> = self.rs.iter().flatten().map(|r| r.id()).collect();
+                    assert!(!ids.is_empty(), "Select::ready with no operation would block forever");
                     c.block(Status::IdleBlocked, "select", ids, false);
                 }
             }
